@@ -136,6 +136,10 @@ impl Monitor for C06 {
             acc.situation(format!("cpf:{}:{}", (pre.protocol_fee_owed_a > 0) as u8, (pre.protocol_fee_owed_b > 0) as u8));
             return;
         }
+        if let Some(t) = super::twohop::parse_two_hop(&obs.ix) {
+            two_hop_legs(w, obs, &t, acc);
+            return;
+        }
         let Some(c) = parse_swap(&obs.ix) else { return };
         let (Some(pre), Some(post)) = (obs.pre.data(&c.pool).and_then(codec::Pool::decode), w.bank.data(&c.pool).and_then(codec::Pool::decode)) else { return };
         if !plain_pool(&w.bank, &pre) {
@@ -264,6 +268,120 @@ impl Monitor for C06 {
             }
         }
         acc.situation(format!("{}:{}:{}:steps{}:pf{}:fr{}:ad{}", obs.ix.name, c.exact_in, c.a_to_b, bucket(steps.len()), pre.protocol_fee_rate, pre.fee_rate, adaptive));
+    }
+}
+
+/// C06 for the two legs of a successful two-hop over plain mints: each pool books the protocol share and
+/// the LP share of its own leg on its own input token, nothing on its output token, the vaults move by the
+/// step sums, and each leg has its own trade record.
+fn two_hop_legs(w: &mut World, obs: &Obs, t: &super::twohop::TwoHop, acc: &mut Acc) {
+    let fail = |acc: &mut Acc, sig: &str, detail: String| {
+        acc.violation(format!("c06:{sig}:{}", obs.ix.name), detail, json!({"instruction": ix_brief(&obs.ix)}));
+    };
+    if t.p1 == t.p2 {
+        return;
+    }
+    let st = |bk: &Bank, k: &Pubkey| bk.data(k).and_then(codec::Pool::decode);
+    let (Some(pre1), Some(post1), Some(pre2), Some(post2)) = (st(&obs.pre, &t.p1), st(&w.bank, &t.p1), st(&obs.pre, &t.p2), st(&w.bank, &t.p2)) else { return };
+    if !plain_pool(&w.bank, &pre1) || !plain_pool(&w.bank, &pre2) {
+        return;
+    }
+    let sw = swaps_of(&obs.out);
+    if sw.len() != 2 {
+        fail(acc, "hook_missing", format!("{} swap computations recorded for one two-hop instruction", sw.len()));
+        return;
+    }
+    // exact-in computes leg one first, exact-out leg two first
+    let (i1, i2) = if t.exact_in { (0, 1) } else { (1, 0) };
+    let ev = traded_events(&obs.out.events);
+    if ev.len() != 2 {
+        fail(acc, "event_missing", format!("{} Traded events for a two-hop", ev.len()));
+    }
+    let mut totals = vec![];
+    for (leg, pk, pre, post, d, idx) in [(1, t.p1, &pre1, &post1, t.d1, i1), (2, t.p2, &pre2, &post2, t.d2, i2)] {
+        let (begin, steps) = &sw[idx];
+        if begin.a_to_b != d || begin.sqrt_price != pre.sqrt_price || begin.liquidity != pre.liquidity {
+            fail(acc, "hook_missing", format!("leg {leg}: recorded computation does not start from the pool's state"));
+            return;
+        }
+        let adaptive = pre.is_adaptive();
+        let (mut sum_in, mut sum_out, mut sum_fee, mut sum_cut, mut growth) = (0u128, 0u128, 0u128, 0u128, 0u128);
+        for (k, s) in steps.iter().enumerate() {
+            if !adaptive && s.total_fee_rate != pre.fee_rate as u32 {
+                fail(acc, "step_rate", format!("leg {leg} step {k}: rate {} on a static pool with fee_rate {}", s.total_fee_rate, pre.fee_rate));
+            }
+            let reached = s.next_price == s.bounded_sqrt_price_target;
+            let expect_fee: BigUint = if begin.exact_in && !reached { BigUint::from(s.amount_remaining_before.wrapping_sub(s.amount_in)) } else { fee_on_input(s.amount_in, s.total_fee_rate) };
+            if BigUint::from(s.fee_amount) != expect_fee {
+                fail(acc, "step_fee", format!("leg {leg} step {k}: fee {} != expected {expect_fee}", s.fee_amount));
+            }
+            let cut = (s.fee_amount as u128) * (pre.protocol_fee_rate as u128) / 10_000;
+            sum_cut += cut;
+            if s.liquidity > 0 {
+                growth = growth.wrapping_add(((s.fee_amount as u128 - cut) << 64) / s.liquidity);
+            }
+            sum_in += s.amount_in as u128;
+            sum_out += s.amount_out as u128;
+            sum_fee += s.fee_amount as u128;
+        }
+        let (owed_in_pre, owed_in_post, owed_out_pre, owed_out_post, g_in_pre, g_in_post, g_out_pre, g_out_post) = if d {
+            (pre.protocol_fee_owed_a, post.protocol_fee_owed_a, pre.protocol_fee_owed_b, post.protocol_fee_owed_b, pre.fee_growth_global_a, post.fee_growth_global_a, pre.fee_growth_global_b, post.fee_growth_global_b)
+        } else {
+            (pre.protocol_fee_owed_b, post.protocol_fee_owed_b, pre.protocol_fee_owed_a, post.protocol_fee_owed_a, pre.fee_growth_global_b, post.fee_growth_global_b, pre.fee_growth_global_a, post.fee_growth_global_a)
+        };
+        if owed_in_post.wrapping_sub(owed_in_pre) as u128 != sum_cut & (u64::MAX as u128) {
+            fail(acc, "protocol_share", format!("leg {leg}: protocol fee owed on the input token grew by {} but sum of floor(fee*{}/10000) over steps = {sum_cut}", owed_in_post.wrapping_sub(owed_in_pre), pre.protocol_fee_rate));
+        }
+        if owed_out_post != owed_out_pre {
+            fail(acc, "protocol_share_other_token", format!("leg {leg}: protocol fee owed of the output token changed {owed_out_pre} -> {owed_out_post}"));
+        }
+        if g_in_post.wrapping_sub(g_in_pre) != growth {
+            fail(acc, "lp_share", format!("leg {leg}: fee growth of the input token advanced by {} but the steps give {growth}", g_in_post.wrapping_sub(g_in_pre)));
+        }
+        if g_out_post != g_out_pre {
+            fail(acc, "lp_share_other_token", format!("leg {leg}: fee growth of the output token changed {g_out_pre} -> {g_out_post}"));
+        }
+        if let Some(e) = ev.iter().find(|e| e.whirlpool == pk) {
+            let ok = e.a_to_b == d
+                && e.pre_sqrt_price == pre.sqrt_price
+                && e.post_sqrt_price == post.sqrt_price
+                && e.input_amount as u128 == sum_in + sum_fee
+                && e.output_amount as u128 == sum_out
+                && e.input_transfer_fee == 0
+                && e.output_transfer_fee == 0
+                && e.lp_fee as u128 == sum_fee - sum_cut
+                && e.protocol_fee as u128 == sum_cut;
+            if !ok {
+                fail(acc, "event_mismatch", format!("leg {leg}: Traded {e:?} vs observed in {} out {sum_out} lp {} protocol {sum_cut}", sum_in + sum_fee, sum_fee - sum_cut));
+            }
+        } else if ev.len() == 2 {
+            fail(acc, "event_missing", format!("leg {leg}: no Traded event names pool {pk}"));
+        }
+        acc.count("two_hop_legs_checked");
+        if steps.len() > 1 {
+            acc.count("two_hop_legs_multi_step");
+        }
+        totals.push((sum_in + sum_fee, sum_out));
+        acc.situation(format!("{}:leg{leg}:{}:{}:steps{}:pf{}", obs.ix.name, t.exact_in, d, bucket(steps.len()), pre.protocol_fee_rate));
+    }
+    // vaults and trader move by the step sums; the intermediate amount is the same on both sides
+    let d = |k: &Pubkey| bal(&w.bank, k) as i128 - bal(&obs.pre, k) as i128;
+    let ((in1, out1), (in2, out2)) = (totals[0], totals[1]);
+    if out1 != in2 {
+        fail(acc, "intermediate_mismatch", format!("leg one outputs {out1} but leg two takes {in2}"));
+    }
+    let mut expect: std::collections::BTreeMap<Pubkey, i128> = Default::default();
+    *expect.entry(t.vault_one_in).or_default() += in1 as i128;
+    *expect.entry(t.vault_one_mid).or_default() -= out1 as i128;
+    *expect.entry(t.vault_two_mid).or_default() += in2 as i128;
+    *expect.entry(t.vault_two_out).or_default() -= out2 as i128;
+    for (k, e) in &expect {
+        if d(k) != *e {
+            fail(acc, "vault_conservation", format!("vault {k} moved by {} but the steps give {e}", d(k)));
+        }
+    }
+    if t.acct_in != t.acct_out && (d(&t.acct_in) != -(in1 as i128) || d(&t.acct_out) != out2 as i128) {
+        fail(acc, "trader_conservation", format!("trader paid {} received {} but the steps give {in1} / {out2}", -d(&t.acct_in), d(&t.acct_out)));
     }
 }
 
